@@ -23,7 +23,7 @@ RUN_CAP_S = 1200
 F64 = np.float64
 P_FALSE = 1e-12
 
-REG_KERNELS = ["rw", "mh_asym", "mh_indep", "iwls", "iwls_user", "hmc", "nuts", "gibbs_conj", "seq_iwls_rw", "seq_nuts_gibbs", "seq_rw_hmc_mh"]
+REG_KERNELS = ["rw", "mh_asym", "mh_indep", "iwls", "iwls_user", "hmc", "nuts", "gibbs_conj", "seq_iwls_rw", "seq_nuts_gibbs", "seq_rw_hmc_mh", "seq_rw_rw"]
 LS_KERNELS = ["ls_nuts", "ls_iwls_rw", "ls_rw_gibbs", "ls_hmc"]
 
 
@@ -32,13 +32,15 @@ def gen_plan(rng, tier: str, idx: int) -> dict:
     C = 8192 if quick else rng.choice([8192, 16384])
     k = rng.choice([1, 3, 10] if quick else [1, 3, 10, 25])
     epochs = [[rng.choice([3, 4]), k]] if rng.random() < 0.6 or k < 2 else [[3, k // 2], [4, k - k // 2]]
-    slot = idx % 15
-    if slot < 11:
+    slot = idx % 16
+    if slot < 12:
         kern = REG_KERNELS[slot]
         fam = "gaussian" if kern in ("gibbs_conj", "seq_nuts_gibbs") else rng.choice(["gaussian", "logistic", "poisson"])
         p = 2 if kern.startswith("seq") else rng.choice([1, 2])
         if kern == "seq_rw_hmc_mh":
             p = 3
+        if kern == "seq_rw_rw":
+            fam, epochs = "gaussian", [[4, 10]]
         if kern == "iwls_user":
             # the user information depends on the kernel's own position; give the chain enough
             # transitions for a wrong backward density to move the law beyond the thresholds
@@ -47,7 +49,7 @@ def gen_plan(rng, tier: str, idx: int) -> dict:
         return {"model": "regression", "family": fam, "kernel": kern, "p": p, "n": rng.randint(4, 10), "tau": rng.choice([0.7, 1.0, 1.5]),
                 "sigma": rng.choice([0.7, 1.0]), "data_seed": rng.randrange(10**6), "liesel": kern in ("rw", "iwls", "nuts", "hmc", "seq_iwls_rw") and rng.random() < 0.5,
                 "step": rng.choice([0.4, 0.8, 1.2]), "chains": C, "epochs": epochs, "seed": rng.randrange(2**31)}
-    kern = LS_KERNELS[slot - 11]
+    kern = LS_KERNELS[slot - 12]
     return {"model": "locscale", "kernel": kern, "n": rng.randint(4, 10), "tau": rng.choice([1.0, 2.0]), "a": rng.choice([3.0, 4.0]), "b": rng.choice([2.0, 3.0]),
             "step": rng.choice([0.3, 0.6]), "chains": C, "epochs": epochs, "seed": rng.randrange(2**31)}
 
@@ -195,6 +197,10 @@ def reg_kernels(plan, M, iface, liesel):
     if kern == "seq_nuts_gibbs":
         all_keys = ["b0", "b1"]
         return [single["nuts"](["b0"]), gibbs_conj(["b1"])], 1
+    if kern == "seq_rw_rw":
+        # two kernels of the same family on blocks of the same shape: they must not share randomness
+        all_keys = ["b0", "b1"]
+        return [single["rw"](["b0"]), single["rw"](["b1"])], 1
     all_keys = ["b0", "b1"]
     return [single["rw"](["b0"]), single["hmc"](["b1"]), single["mh_asym"](["b0"])][: 3], 1
 
